@@ -261,6 +261,11 @@ def literal(v, order=None):
 
 
 def key_literal(v):
+    """Map-literal keys that are bare identifiers are string shorthand in the
+    language (even NULL, which is an ordinary identifier), so computed keys
+    are wrapped in identity()."""
+    if v is None:
+        return "identity(NULL)"
     return literal(v)
 
 
